@@ -587,7 +587,9 @@ pub(super) struct RecState {{
     pub max_prior_for_term: BTreeMap<TermIndex, Priority>,
 }}
 pub(super) struct RecItem {{
+    pub prod: ProdIndex,
     pub prod_len: usize,
+    pub position: usize,
 }}
 pub(super) struct RecCtx<'g, 's> {{
     pub settings: &'s RecSettings,
